@@ -179,6 +179,27 @@ def hr_spellings(repo):
     return out
 
 
+def hr_constant_templates(repo):
+    """{walk method: [format templates]} the HR printer writes for numeric constants: `self.write(TEMPLATE % ...)` with a literal
+    template, or `self.write(str(...))` (template "%s")"""
+    mi, ci = repo.find_class(HR_PRINTER)
+    out = {}
+    for name in ("walk_real_constant", "walk_int_constant", "walk_bv_constant"):
+        fi = ci["methods"].get(name)
+        if fi is None:
+            continue
+        ts = []
+        for n in ast.walk(fi.node):
+            if isinstance(n, ast.Call) and isinstance(n.func, ast.Attribute) and n.func.attr == "write" and n.args:
+                a = n.args[0]
+                if isinstance(a, ast.BinOp) and isinstance(a.op, ast.Mod) and isinstance(a.left, ast.Constant) and isinstance(a.left.value, str):
+                    ts.append(a.left.value)
+                elif isinstance(a, ast.Call) and ast.unparse(a.func) == "str":
+                    ts.append("%s")
+        out[name] = ts
+    return out
+
+
 class HrOperatorRoundTripVariant(Variant):
     """For every operator the human-readable printer writes as an infix application `(l op r)`: scanning the text `op`
     with the lexer's rules IN THEIR ORDER (first rule that matches at the position wins - evaluated with Python's `re` on
@@ -196,6 +217,7 @@ class HrOperatorRoundTripVariant(Variant):
         repo = self.world.repo
         self.rules, self.idmap = hr_rules(repo)
         self.spell = hr_spellings(repo)
+        self.templates = hr_constant_templates(repo)
         return Builtin("static-scan", lambda exx, a, kw: None), [], {}
 
     def token_for(self, text):
@@ -231,6 +253,23 @@ class HrOperatorRoundTripVariant(Variant):
             if not ok:
                 self.bad[S.OPNAMES[Kop]] = {"printed": op, "lexer": tok}
             goals.append(("C09:hr:%s-printed-as-%s-is-read-as-%s" % (S.OPNAMES[Kop], op.replace(" ", "").replace("/", "(slash)"), S.OPNAMES[Kop]), z3.BoolVal(bool(ok))))
+        # numeric constants: every text the printer's templates give for a sample of numerals (negative ones included; a
+        # bit-vector value is never negative) is ONE token of the matching constant rule, also when a digit or a name follows
+        want_rule = {"walk_real_constant": "self.real_constant", "walk_int_constant": "self.int_constant", "walk_bv_constant": "self.bv_constant"}
+        goals.append(("hr-constant-templates-found", z3.BoolVal(all(self.templates.get(m) for m in want_rule))))
+        for meth, ts in sorted(self.templates.items()):
+            for t in ts:
+                holes = t.count("%s") + t.count("%d")
+                firsts = ("0", "7", "13") if meth == "walk_bv_constant" else ("0", "7", "-7", "-13", "130")
+                for a in firsts:
+                    for b in (("2", "13") if holes > 1 else ("",)):
+                        text = t.replace("%d", "%s") % ((a, b)[:holes])
+                        for tail, where in ((" ", "at-the-end"), (")", "before-a-parenthesis"), (" + x", "before-an-operator")):
+                            tok = self.token_for(text + tail)
+                            ok = tok is not None and tok[3] == len(text) and tok[1] == want_rule[meth]
+                            if not ok:
+                                self.bad["%s %r" % (meth, text)] = {"printed": text, "followed_by": tail, "lexer": tok}
+                            goals.append(("C09:hr:constant-%s-%s-is-one-token-of-its-kind" % (text.replace("/", "(slash)"), where), z3.BoolVal(bool(ok))))
         return goals
 
     def witness(self, model, ex):
